@@ -117,6 +117,7 @@ struct Cx<'tcx> {
     tcx: TyCtxt<'tcx>,
     adts_seen: BTreeMap<String, String>,
     cur_callees: BTreeSet<String>,
+    cur_statics: BTreeSet<String>,
 }
 
 fn path_of(tcx: TyCtxt<'_>, did: DefId) -> String {
@@ -356,6 +357,24 @@ impl<'tcx> Cx<'tcx> {
                         }
                     }
                 }
+                ConstValue::Scalar(mir::interpret::Scalar::Ptr(ptr, _)) => {
+                    // reference to a static / const allocation
+                    let aid = ptr.provenance.alloc_id();
+                    if let Some(ga) = tcx.try_get_global_alloc(aid) {
+                        match ga {
+                            mir::interpret::GlobalAlloc::Static(sdid) => {
+                                let sn = path_of(tcx, sdid);
+                                o.str("static", &sn);
+                                self.cur_statics.insert(sn);
+                            }
+                            mir::interpret::GlobalAlloc::Function { instance } => {
+                                o.str("fnptr_to", &path_of(tcx, instance.def_id()));
+                                self.cur_callees.insert(path_of(tcx, instance.def_id()));
+                            }
+                            _ => {}
+                        }
+                    }
+                }
                 ConstValue::ZeroSized => {
                     o.boolean("zst", true);
                 }
@@ -511,6 +530,7 @@ impl<'tcx> Cx<'tcx> {
             Rvalue::ThreadLocalRef(did) => {
                 o.str("k", "tlsref");
                 o.str("item", &path_of(tcx, *did));
+                self.cur_statics.insert(path_of(tcx, *did));
             }
             other => {
                 o.str("k", "other");
@@ -530,6 +550,7 @@ impl<'tcx> Cx<'tcx> {
         let tcx = self.tcx;
         let mut callees: BTreeSet<String> = BTreeSet::new();
         self.cur_callees.clear();
+        self.cur_statics.clear();
         let mut o = Obj::new();
         let base = path_of(tcx, did);
         let name = match promoted {
@@ -793,6 +814,9 @@ impl<'tcx> Cx<'tcx> {
         }
         o.raw("blocks", &arr(&bbs));
         callees.extend(self.cur_callees.iter().cloned());
+        for st in self.cur_statics.iter() {
+            callees.insert(format!("static {}", st));
+        }
         (o.done(), callees.into_iter().collect())
     }
 }
@@ -820,7 +844,7 @@ impl Callbacks for Facts {
             return Compilation::Continue;
         }
         let nonce = std::env::var("VRL_FACTS_NONCE").unwrap_or_default();
-        let mut cx = Cx { tcx, adts_seen: BTreeMap::new(), cur_callees: BTreeSet::new() };
+        let mut cx = Cx { tcx, adts_seen: BTreeMap::new(), cur_callees: BTreeSet::new(), cur_statics: BTreeSet::new() };
         let mut bodies_out: Vec<u8> = Vec::new();
         let mut index: Vec<String> = Vec::new();
         let mut n_bodies = 0usize;
